@@ -582,8 +582,8 @@ End Dedupe.
 (* ---------- non-vacuity: the translated functions on concrete inputs; the hypothesis keys_ok on a written file ---------- *)
 Definition no_rx (s : string) : option (string * nat) := None.
 Example ex_keys_ok : exists x f, write QcNum demo_ws = inl (x, f) /\ keys_ok QcNum f.
-Proof. destruct (write QcNum demo_ws) as [[x f]|e] eqn:E; [|vm_compute in E; discriminate]. exists x, f. split; [reflexivity|].
-  apply keys_okb_sound. vm_compute in E. inversion E; subst. vm_compute. reflexivity. Qed.
+Proof. assert (H : match write QcNum demo_ws with inl (x, f) => keys_okb QcNum f | inr _ => false end = true) by (vm_compute; reflexivity).
+  destruct (write QcNum demo_ws) as [[x f]|e]; [|discriminate]. exists x, f. split; [reflexivity|]. now apply keys_okb_sound. Qed.
 Example ex_build_modifier_staterror :
   gen_build_modifier QcNum demo_ws (MO "st" (DST [q 3 1; q 1 1])) "ch1" "bkg" [q 50 1; q 0 1]
   = inl (Some (XStatError QcNum "histch1_bkg_st"), [("histch1_bkg_st", [q 3 50; q 0 1])]).
